@@ -242,8 +242,19 @@ class Builder:
             if f["kind"] == "method":
                 c.instance_method(schema, key)(self.function(key, f["sig"]))
             else:
-                setattr(schema, key, self.field(f))
+                fld = self.field(f)
+                if isinstance(fld, c.Field) and len(key) % 2 == 0:
+                    # documented fields: the documentation is free text (several lines, several
+                    # paragraphs, quotes, a hash sign) and is no part of what C20 says a stub declares
+                    fld.help = HELP_TEXT
+                setattr(schema, key, fld)
         return schema
+
+
+HELP_TEXT = (
+    "The first paragraph of the documentation wraps\nover two lines: it \"quotes\", has a # sign and 'apostrophes'\n\n"
+    "A second paragraph:\n    indented = text()\n"
+)
 
 
 def snapshot(cinco, roots):
